@@ -61,6 +61,10 @@ type tvDag struct {
 	names  map[string]string // cid key -> node name
 }
 
+// tvNoIdentityLeaf: set by the get-dag replay, whose cases take blocks away from the store -- a block under an identity
+// CID cannot be missing (its bytes are in the link), so that replay builds its DAGs without the identity leaf.
+var tvNoIdentityLeaf bool
+
 func buildTvDag(kids map[string][]string, order []string, alias string) *tvDag {
 	d := &tvDag{cids: map[string]cid.Cid{}, data: map[string][]byte{}, names: map[string]string{}}
 	for i := len(order) - 1; i >= 0; i-- {
@@ -78,7 +82,7 @@ func buildTvDag(kids map[string][]string, order []string, alias string) *tvDag {
 			}
 			b = detBytes("raw leaf "+n, size)
 			codec = cid.Raw
-			if i == 3 && len(kids[order[0]])%2 == 1 {
+			if i == 3 && len(kids[order[0]])%2 == 1 && !tvNoIdentityLeaf {
 				// an identity CID: the block's bytes are inlined in the link; it is a block of the DAG like any other
 				b = detBytes("inline "+n, 11)
 				ih, _ := mh.Sum(b, mh.IDENTITY, -1)
